@@ -110,3 +110,56 @@ func TestVerifSearch_ShouldIncludeNode(t *testing.T) {
 	fmt.Printf("VERIF-SAMPLE: [skip(if:false) include(if:false)]\n")
 	fmt.Printf("VERIF-BOUNDED: evaluations=%d distinct=%d failures=%d\n", evals, distinct, failures)
 }
+
+// "One use of a fragment never affects another use of the same fragment": every spread site of a named fragment
+// must be included or excluded by its own directives only.
+func verifC19SpreadCheck(query string, vars map[string]interface{}, want map[string]bool) (bool, string) {
+	q, err := Parse(query, vars)
+	if err != nil {
+		return false, "rejected: " + err.Error()
+	}
+	for _, sel := range q.SelectionSet.Selections {
+		expect, ok := want[sel.Alias]
+		if !ok || sel.SelectionSet == nil {
+			continue
+		}
+		for _, f := range sel.SelectionSet.Fragments {
+			got, err := ShouldIncludeNode(f.Directives)
+			if err != nil {
+				return true, "directive error: " + err.Error()
+			}
+			if got != expect {
+				return true, fmt.Sprintf("the spread under %q is included=%v, its own directives say %v", sel.Alias, got, expect)
+			}
+		}
+	}
+	return false, "agrees"
+}
+
+func TestVerifSearch_C19_FragmentSharing(t *testing.T) {
+	dirs := []struct {
+		text    string
+		include bool
+	}{{"", true}, {"@skip(if: true)", false}, {"@skip(if: false)", true}, {"@include(if: false)", false}, {"@include(if: true)", true}, {"@include(if: $v)", true}, {"@skip(if: $v)", false}}
+	evals, distinct, failures := 0, 0, 0
+	for _, d1 := range dirs {
+		for _, d2 := range dirs {
+			for _, d3 := range dirs {
+				evals++
+				if d1.text != d2.text || d2.text != d3.text {
+					distinct++
+				}
+				q := fmt.Sprintf("query Q($v: Boolean) { a { ...F %s } b { ...F %s } c { ...F %s } } fragment F on T { x }", d1.text, d2.text, d3.text)
+				want := map[string]bool{"a": d1.include, "b": d2.include, "c": d3.include}
+				if bad, detail := verifC19SpreadCheck(q, map[string]interface{}{"v": true}, want); bad {
+					failures++
+					if failures == 1 {
+						fmt.Printf("VERIF-FAIL-INPUT: %s\n", verifJSON(map[string]interface{}{"query": q, "variables": map[string]interface{}{"v": true}, "detail": detail}))
+					}
+				}
+			}
+		}
+	}
+	fmt.Printf("VERIF-SAMPLE: { a { ...F @skip(if: true) } b { ...F } c { ...F } } fragment F on T { x }\n")
+	fmt.Printf("VERIF-BOUNDED: evaluations=%d distinct=%d failures=%d\n", evals, distinct, failures)
+}
